@@ -35,9 +35,12 @@
   Binary64: `p * (1e-12 / p)` can be one ulp below `1e-12` (two roundings); the theorem is about
   exact arithmetic, the harness accepts 4 ulp on the real `MPSConfig` and says so.
 
-  Scope note: `dmrg_refuses_noise` is about the noise model the DMRG check looks at
-  (`config.noise_model`); with `prefer_device_noise_model=True` the noise in effect comes from
-  the device and `config.noise_model` may be empty — see notes/config.md.
+  FINDING (open, `known_findings.d/config.json` D20): `dmrg_refuses_noise` is about the noise model
+  the DMRG check looks at (`config.noise_model`). With `prefer_device_noise_model=True` the noise in
+  effect is the device's default noise model; the full-strength statement over the noise *in
+  effect* is `DmrgRefusesEffectiveNoise`; `dmrg_refuses_effective_noise_partial` is what holds and
+  `dmrg_device_noise_counterexample` proves the full statement false for the current tree (device
+  SPAM/doppler/amplitude noise + DMRG is emulated); the witness is replayed on the real code.
 -/
 import EmuVerif.Proofs.Config
 
@@ -189,7 +192,7 @@ theorem dmrg_refuses_noise_seq (d : Seq) (cfgNoise : Bool)
 every interaction type and every level count: emu-mps with the DMRG solver raises. -/
 theorem dmrg_refuses_noise (it : IntType) (dim : Nat) (kinds : List NoiseKind) (h : kinds ≠ []) :
     ∃ e, accept .mps it dim kinds .dmrg = .raise e := by
-  unfold accept acceptV
+  unfold accept acceptV acceptCore
   cases detectHam it with
   | err e => exact ⟨e, rfl⟩
   | ok ham =>
@@ -213,6 +216,86 @@ theorem dmrg_noise_asFound_counterexample :
     (Or.inl (by simp))
   have hw : mpsAccept .asFound { ham := .rydberg, dim := 2, opDims := [2], nAtoms := 2, nGood := 2 }
       .dmrg false = .emulate .rydberg2 := by decide
+  rw [hw] at he
+  cases he
+
+/-! ### The noise model *in effect* (finding: `prefer_device_noise_model`) -/
+
+/-- Full-strength reading of "the DMRG solver refuses noise models with noise": whatever the
+source of the noise model in effect (`config.noise_model`, or the device's default one when
+`prefer_device_noise_model=True`), a non-empty one makes DMRG raise. **Not satisfied by the
+current tree** (`dmrg_device_noise_counterexample`); satisfied by the proposed repair
+(`dmrg_refuses_effective_noise_fixed`). -/
+def DmrgRefusesEffectiveNoise (fixed : Bool) : Prop :=
+  ∀ (it : IntType) (dim : Nat) (prefer : Bool) (cfgKinds devKinds : List NoiseKind),
+    (if prefer then devKinds else cfgKinds) ≠ [] →
+    ∃ e, acceptDev fixed .mps it dim prefer cfgKinds devKinds .dmrg = .raise e
+
+/-- With `run()` checking the noise model in effect (proposed repair) the statement holds in full. -/
+theorem dmrg_refuses_effective_noise_fixed : DmrgRefusesEffectiveNoise true := by
+  intro it dim prefer cfgKinds devKinds h
+  unfold acceptDev acceptDevEff
+  cases detectHam it with
+  | err e => exact ⟨e, rfl⟩
+  | ok ham =>
+    cases allLindblad dim (if prefer then devKinds else cfgKinds) with
+    | err e => exact ⟨e, rfl⟩
+    | ok n =>
+      refine ⟨.notImpl, ?_⟩
+      have : (!(if prefer then devKinds else cfgKinds).isEmpty) = true := by
+        cases hk : (if prefer then devKinds else cfgKinds) with
+        | nil => exact absurd hk h
+        | cons k ks => rfl
+      simp only [this, and_self, if_true]
+
+/-- What holds on the current tree: the noise in effect is refused when it is `config.noise_model`
+(`prefer_device_noise_model=False`), or when `config.noise_model` is not empty either, or when the
+device noise yields at least one Lindblad operator. -/
+theorem dmrg_refuses_effective_noise_partial (it : IntType) (dim : Nat) (prefer : Bool)
+    (cfgKinds devKinds : List NoiseKind)
+    (h : (if prefer then devKinds else cfgKinds) ≠ [])
+    (hg : prefer = false ∨ cfgKinds ≠ [] ∨
+          ∃ n, allLindblad dim devKinds = .ok n ∧ 0 < n) :
+    ∃ e, acceptDev false .mps it dim prefer cfgKinds devKinds .dmrg = .raise e := by
+  unfold acceptDev acceptDevEff acceptCore
+  cases hd : detectHam it with
+  | err e => exact ⟨e, rfl⟩
+  | ok ham =>
+    cases hl : allLindblad dim (if prefer then devKinds else cfgKinds) with
+    | err e => exact ⟨e, rfl⟩
+    | ok n =>
+      refine ⟨.notImpl, ?_⟩
+      simp only [Bool.false_eq_true, false_and, if_false, hd, hl, acceptSeq]
+      apply dmrg_refuses_noise_seq
+      have hcfg : cfgKinds ≠ [] → (!cfgKinds.isEmpty) = true := by
+        intro hc; cases cfgKinds with
+        | nil => exact absurd rfl hc
+        | cons k ks => rfl
+      rcases hg with hp | hc | ⟨m, hm, hpos⟩
+      · subst hp
+        exact Or.inr (hcfg h)
+      · exact Or.inr (hcfg hc)
+      · cases prefer with
+        | false => exact Or.inr (hcfg h)
+        | true =>
+          left
+          simp only [if_true] at hl
+          rw [hm] at hl
+          have hmn : m = n := by cases hl; rfl
+          subst hmn
+          intro hnil
+          have hnil' : List.replicate m dim = [] := hnil
+          have : (List.replicate m dim).length = 0 := by rw [hnil']; rfl
+          rw [List.length_replicate] at this
+          omega
+
+/-- The current tree does **not** satisfy the full-strength statement: a device whose default
+noise model has only non-Lindbladian noise (SPAM, doppler, amplitude …), taken with
+`prefer_device_noise_model=True` and an empty `config.noise_model`, is emulated by DMRG. -/
+theorem dmrg_device_noise_counterexample : ¬ DmrgRefusesEffectiveNoise false := by
+  intro h
+  obtain ⟨e, he⟩ := h .ising 2 true [] [.nonLindblad] (by simp)
+  have hw : acceptDev false .mps .ising 2 true [] [.nonLindblad] .dmrg = .emulate .rydberg2 := by decide
   rw [hw] at he
   cases he
 
@@ -244,5 +327,9 @@ example : createImpl .repaired .dmrg 0 false 3 = .ok .dmrg := by decide
 example : accept .mps .ising 2 [.relaxation] .dmrg = .raise .notImpl := by decide
 example : accept .mps .ising 2 [.nonLindblad] .dmrg = .raise .notImpl := by decide
 example : accept .mps .ising 2 [] .dmrg = .emulate .rydberg2 := by decide
+example : acceptDev true .mps .ising 2 true [] [] .dmrg = .emulate .rydberg2 := by decide
+example : acceptDev true .mps .ising 2 true [] [.nonLindblad] .tdvp = .emulate .rydberg2 := by decide
+example : acceptDev false .mps .ising 2 true [] [.relaxation] .dmrg = .raise .notImpl := by decide
+example : acceptDev false .mps .ising 2 true [.nonLindblad] [.nonLindblad] .dmrg = .raise .notImpl := by decide
 
 end EmuVerif.Props.C33
